@@ -158,43 +158,55 @@ func runC16(c *engine.Ctx) {
 	// front of messages queued behind it: never sent, never reported.)
 	{
 		var pop *ssa.Store
-		for _, st := range engine.StoresTo([]*ssa.Function{m.extract}, m.builders) {
+		for _, st := range engine.StoresTo([]*ssa.Function{m.popFn}, m.builders) {
 			if sl, ok := st.Val.(*ssa.Slice); ok && sl.Low != nil {
 				pop = st
 			}
 		}
+		// from the branch on which the list is known to be non-empty, every path to a return takes the head off:
+		// the step can then only fail with the list empty, or after removing what it failed on
 		okFail, nFail := true, 0
 		var at token.Pos
 		if pop != nil {
-			for _, r := range engine.Returns(m.extract) {
-				if len(r.Results) == 0 {
+			isPop := func(in ssa.Instruction) bool { return in == ssa.Instruction(pop) }
+			for _, b := range m.popFn.Blocks {
+				ifi, ok := b.Instrs[len(b.Instrs)-1].(*ssa.If)
+				if !ok {
 					continue
 				}
-				ev := engine.ReturnValue(r, len(r.Results)-1)
-				if engine.IsNilConst(ev) {
+				bo, ok := ifi.Cond.(*ssa.BinOp)
+				if !ok {
 					continue
 				}
-				// a possibly-failing return: after the pop, or under len(builders) == 0
+				lc, ok := engine.LocalValue(bo.X).(*ssa.Call)
+				if !ok {
+					continue
+				}
+				if lb, ok := lc.Call.Value.(*ssa.Builtin); !ok || lb.Name() != "len" || !isLoadOfField(lc.Call.Args[0], m.builders) {
+					continue
+				}
+				k, isK := engine.ConstInt(bo.Y)
+				if !isK || k != 0 {
+					continue
+				}
+				var nonEmpty *ssa.BasicBlock
+				switch bo.Op {
+				case token.EQL, token.LEQ:
+					nonEmpty = b.Succs[1]
+				case token.NEQ, token.GTR:
+					nonEmpty = b.Succs[0]
+				default:
+					continue
+				}
+				if engine.Before(pop, ifi) {
+					continue // a test made after the head was taken (the "more work?" re-signal)
+				}
 				nFail++
-				if engine.Before(pop, r) {
-					continue
-				}
-				emptyQueue := false
-				for _, cd := range engine.InstrConds(r) {
-					if bo, ok := cd.V.(*ssa.BinOp); ok {
-						if lc, ok := bo.X.(*ssa.Call); ok {
-							if lb, ok := lc.Call.Value.(*ssa.Builtin); ok && lb.Name() == "len" && isLoadOfField(lc.Call.Args[0], m.builders) {
-								k, _ := engine.ConstInt(bo.Y)
-								if k == 0 && ((bo.Op == token.EQL && cd.Pol) || (bo.Op == token.GTR && !cd.Pol) || (bo.Op == token.NEQ && !cd.Pol) || (bo.Op == token.LEQ && cd.Pol)) {
-									emptyQueue = true
-								}
-							}
-						}
-					}
-				}
-				if !emptyQueue {
+				if r, bad := engine.MustReachFromBlock(nonEmpty, isPop, nil); !r {
 					okFail = false
-					at = r.Pos()
+					if bad != nil {
+						at = bad.Pos()
+					}
 				}
 			}
 		}
@@ -297,7 +309,7 @@ func runC16(c *engine.Ctx) {
 		}
 		liftedSignal := engine.LiftMust(isSignal)
 		var resignals []ssa.Instruction
-		engine.Instrs(m.extract, func(in ssa.Instruction) {
+		engine.Instrs(m.popFn, func(in ssa.Instruction) {
 			if liftedSignal(in) {
 				resignals = append(resignals, in)
 			}
